@@ -150,6 +150,12 @@ func tryQueueReloadRequest(
 			log.Warnln("[Reload] Reload already in progress or handoff pending; ignoring this signal")
 		}
 		restoreRejectedReloadProgress(reloadActive, false)
+		// The gate may have been released between the failed CAS and the busy
+		// report above; the releaser then found nothing to clear, and the stale
+		// busy report would make every later "dae reload" refuse to send.
+		if !reloadPending.Load() {
+			clearRejectedReloadProgress()
+		}
 		return false
 	}
 	beginReloadProxyFailureSuppression()
